@@ -227,8 +227,6 @@ def oracle(case, rec, info=None):
             return "predict differs from pad(Xnew) @ coef_.T"
         return None
     W = coef.T.reshape(p, t)
-    if case["y1d"] and list(rec["coef_shape"]) != [p]:
-        return "1-D y but coef_ has shape %s" % rec["coef_shape"]
     if np.max(np.abs(W @ W.T @ W - W)) > 1e-9 * (1 + np.max(np.abs(W))):
         return "coef_ is not a partial isometry: max|W W^T W - W| = %.3g" % float(np.max(np.abs(W @ W.T @ W - W)))
     if np.any(np.sum(pred * pred, axis=1) > np.sum(Xn * Xn, axis=1) * (1 + 1e-9) + 1e-300):
